@@ -188,29 +188,37 @@ def size : Val → PyM Val
   | .err => te
   | _ => unk
 
+/-- `operator.neg`, `celtypes.logical_not` -/
+def un (op : UnOp) (x : Val) : PyM Val :=
+  match op, x with
+  | .neg, .int a => ofInt (IntOps.neg a)
+  | .neg, .err => .ok .err
+  | .neg, .bool _ => te
+  | .neg, .str _ => te
+  | .neg, .list _ => te
+  | .neg, .null => te
+  | .not, .bool b => .ok (.bool (!b))
+  | .not, .err => .ok .err
+  | .not, .int _ => te
+  | .not, .str _ => te
+  | .not, .list _ => te
+  | .not, .null => te
+  | _, _ => unk
+
+def bin (op : BinOp) (x y : Val) : PyM Val :=
+  if isArith op then arith op x y
+  else if isOrd op then ord op x y
+  else match op with
+    | .eq => eqOp false x y
+    | .ne => eqOp true x y
+    | .in_ => inOp x y
+    | _ => unk
+
 def prim : PrimOp → List Val → PyM Val
-  | .un .neg, [.int a] => ofInt (IntOps.neg a)
-  | .un .neg, [.err] => .ok .err
-  | .un .neg, [.bool _] => te
-  | .un .neg, [.str _] => te
-  | .un .neg, [.list _] => te
-  | .un .neg, [.null] => te
-  | .un .not, [.bool b] => .ok (.bool (!b))
-  | .un .not, [.err] => .ok .err
-  | .un .not, [.int _] => te
-  | .un .not, [.str _] => te
-  | .un .not, [.list _] => te
-  | .un .not, [.null] => te
-  | .bin op, [x, y] =>
-      if isArith op then arith op x y
-      else if isOrd op then ord op x y
-      else match op with
-        | .eq => eqOp false x y
-        | .ne => eqOp true x y
-        | .in_ => inOp x y
-        | _ => unk
+  | .un op, [x] => un op x
+  | .bin op, [x, y] => bin op x y
   | .index, [x, i] => index x i
-  | .fn "size", [x] => size x
+  | .fn f, [x] => if f == "size" then size x else unk
   | _, _ => unk
 
 /-- keys of `celpy.evaluation.base_functions` (bridged to the regenerated list) -/
@@ -227,5 +235,21 @@ def strictFn (f : String) : Bool := !(f == "type" || f == "string" || f == "cont
 
 def sem : Sem := { prim := prim, isFun := isFun, strictFn := strictFn, iter := iterV, toBool := boolTypeOf }
 
+end PrimD
+end Cel
+
+namespace Cel
+namespace PrimD
+/-- totalised variant: what the driver reports as "not modelled" (`.other`) is a `TypeError` here.
+Used as the witness that `PrimLaws` is satisfiable by a non-trivial semantics (int64 arithmetic with overflow,
+comparisons, list indexing, concatenation, `in`, `size`). -/
+def totalise (r : PyM α) : PyM α :=
+  match r with
+  | .error .other => .error .typeError
+  | r => r
+
+def semT : Sem :=
+  { prim := fun op args => totalise (prim op args), isFun := isFun, strictFn := fun _ => true,
+    iter := fun v => totalise (iterV v), toBool := fun v => totalise (boolTypeOf v) }
 end PrimD
 end Cel
